@@ -42,6 +42,15 @@ func appStream(c *hx.Ctx, o *hx.Outcome, minFrames int) (segs []gnss.Segment, wi
 		o.Probe(fmt.Sprintf("bulk-stream-%d-messages", n))
 		return segs, gnss.Concat(segs), true
 	}
+	fitOneIn := 60
+	if c.Thorough() {
+		fitOneIn = 20
+	}
+	if c.T.SBool(1, fitOneIn) {
+		segs = gnss.GenBoundaryFit(c.T)
+		o.Probe("boundary-fitted-stream")
+		return segs, gnss.Concat(segs), true
+	}
 	if c.T.SBool(1, 2) {
 		segs = genCleanStream(c, o, minFrames)
 		return segs, gnss.Concat(segs), true
@@ -149,8 +158,11 @@ func C11(app string, entry EntryFunc, display bool) func(*hx.Ctx) *hx.Outcome {
 
 // ---- C10: rtcmfilter emits exactly the valid frames ------------------------------------
 
+// readOne returns the concatenation, in name (= date) order, of the daily files
+// with the given prefix and suffix, and how many there are.  A simulated run
+// that crosses midnight legitimately leaves more than one daily file.
 func readOne(dir, prefix, suffix string) ([]byte, int) {
-	ents, _ := os.ReadDir(dir)
+	ents, _ := os.ReadDir(dir) // sorted by name
 	var data []byte
 	n := 0
 	for _, e := range ents {
@@ -222,8 +234,11 @@ func C10(entry EntryFunc) func(*hx.Ctx) *hx.Outcome {
 		if cfg.RecordMessages {
 			rec, nf := readOne(cfg.MessageLogDirectory, "rtcmfilter.", ".rtcm")
 			o.Probe("record-file-read")
-			if nf != 1 {
-				o.Fail("C10/record-file", "%d record files found", nf)
+			if nf > 1 {
+				o.Probe("run-crossed-simulated-midnight")
+			}
+			if nf < 1 {
+				o.Fail("C10/record-file", "no record file found")
 			} else if d := firstDiff(rec, want); d >= 0 {
 				o.Fail("C10/record-differs", "record file differs from the valid frames at offset %d (file %d bytes, expected %d)", d, len(rec), len(want))
 			}
@@ -231,8 +246,8 @@ func C10(entry EntryFunc) func(*hx.Ctx) *hx.Outcome {
 		if cfg.DisplayMessages {
 			txt, nf := readOne(cfg.MessageLogDirectory, "rtcm.", ".txt")
 			o.Probe("display-log-read")
-			if nf != 1 {
-				o.Fail("C10/display-log", "%d display log files found", nf)
+			if nf < 1 {
+				o.Fail("C10/display-log", "no display log file found")
 			} else if h := countHeaders(txt); h != nMsgs {
 				o.Fail("C10/display-entries", "display log holds %d entries, %d messages were delivered", h, nMsgs)
 			}
@@ -404,7 +419,9 @@ func C16(start func(cfg *lcfg.Config)) func(*hx.Ctx) *hx.Outcome {
 		}
 		final, nf := readOne(cfg.MessageLogDirectory, "rtcmlogger.", ".rtcm")
 		if nf > 1 || nAtExit > 1 {
-			o.Fail("C16/record-file", "%d record files", nf)
+			// slow standard output: the simulated run crossed midnight and the daily
+			// writer started the next day's file; the record is the files in date order
+			o.Probe("run-crossed-simulated-midnight")
 		}
 		if d := firstDiff(final, data); d >= 0 {
 			o.Fail("C16/record-differs", "record file at quiescence differs from the input at offset %d (file %d bytes, input %d)", d, len(final), len(data))
